@@ -3,7 +3,7 @@
 Oracle = AST with semantics (vp/gen/asm_rv.py).  Pseudo-instructions are judged by EFFECT and
 compositionality (the group a statement assembles to alone must reappear wherever it occurs and must
 have the documented effect when executed by the reference interpreter), never by a pinned expansion."""
-from ..common import rng_for, h64, make_riscv, real_regs, M32
+from ..common import guarded, rng_for, h64, make_riscv, real_regs, M32
 from ..refmodels.rv32 import SeqRef, Fault, LOADS, STORES, sext
 from ..gen import asm_rv as A
 
@@ -22,7 +22,7 @@ ASSUMPTIONS = {
 }
 REQUIRED = {
     "C04": ["programs_loaded", "renderings_compared", "pseudo_groups_judged", "inline_labels_on_expanding_pseudo", "label_refs_checked", "label_at_end", "offset_refs"],
-    "C05": ["data_images_compared", "indexed_accesses_run", "zero_indexed", "li_constants_run", "li_with_carry", "doc_example", "segment_orders_compared"],
+    "C05": ["data_images_compared", "indexed_accesses_run", "zero_indexed", "li_constants_run", "li_with_carry", "doc_example", "segment_orders_compared", "address_sweep_targets"],
     "C14": ["round_trips", "listing_round_trips", "mn_jal", "mn_csrrw", "mn_sw", "mn_lui", "mn_ebreak"],
 }
 
@@ -32,7 +32,7 @@ def plan(prop, tier, seed):
     if prop == "C04":
         return [{"kind": "directed", "shard": 0}] + [{"kind": "ast", "n": 28 if q else 1000, "renders": 4 if q else 6, "shard": i} for i in range(15)]
     if prop == "C05":
-        return [{"kind": "doc", "shard": 0}] + [{"kind": "li_sweep", "shard": i, "of": 12} for i in range(12)] + [{"kind": "data", "n": 22 if q else 700, "shard": i} for i in range(14)] + [{"kind": "li", "n": 14 if q else 450, "shard": i} for i in range(14 if q else 15)]
+        return [{"kind": "doc", "shard": 0}] + [{"kind": "li_sweep", "shard": i, "of": 12} for i in range(12)] + [{"kind": "data", "n": 22 if q else 700, "shard": i} for i in range(14)] + [{"kind": "addr_sweep", "shard": i, "of": 6} for i in range(6)] + [{"kind": "li", "n": 14 if q else 450, "shard": i} for i in range(14 if q else 15)]
     return [{"kind": "rt", "n": 12 if q else 400, "shard": i} for i in range(10 if q else 15)] + [{"kind": "rt_regs", "shard": 0}] + [{"kind": "listing", "n": 12 if q else 300, "shard": i} for i in range(4)]
 
 
@@ -223,7 +223,12 @@ def _is_group_field(e):
 def check_image(sim, img, end):
     m = sim.state.memory
     lo = A.DATA_BASE
-    for a in range(lo, max(end, lo) + 8):
+    # every declared byte, guard bytes behind the segment, the first bytes of the data range (huge .zero
+    # reservations are not walked byte by byte) and everything the backing store holds
+    probe = set(img) | set(range(max(end, lo), max(end, lo) + 8)) | set(range(lo, min(max(end, lo), lo + 64)))
+    for a in sorted(probe):
+        if a >= (1 << 32):
+            continue
         got = int(m.read_byte(a))
         if got != img.get(a, 0):
             return "data byte %#x = %#x, declared layout gives %#x" % (a, got, img.get(a, 0))
@@ -540,13 +545,13 @@ def run_shard(spec, res):
     k = spec["kind"]
     if k == "directed":
         for c in directed_c04():
-            run_case(prop, c, res)
+            guarded(run_case, prop, c, res)
             res.evaluations += 1
     elif k == "ast" or k == "listing":
         for it in range(spec["n"]):
             ast = A.gen_ast(rng)
             case = {"kind": "ast", "data": ast["data"], "stmts": ast["stmts"], "labels": ast["labels"], "renders": [0] + [rng.getrandbits(30) + 1 for _ in range(spec.get("renders", 2) - 1)], "seed": rng.getrandbits(30)}
-            run_case(prop, case, res)
+            guarded(run_case, prop, case, res)
             res.evaluations += 1
             if it < 1:
                 res.sample({"ast": case, "rendering": A.Renderer(case["renders"][-1]).program(ast)}, 3)
@@ -555,10 +560,31 @@ def run_shard(spec, res):
     elif k == "data":
         for it in range(spec["n"]):
             case = gen_data_case(rng)
-            run_case(prop, case, res)
+            guarded(run_case, prop, case, res)
             res.evaluations += 1
             if it < 1:
                 res.sample({"case": case, "rendering": A.Renderer(case["renders"][0]).program({"data": case["data"], "stmts": case["stmts"], "labels": {}}, data_first=True)}, 3)
+    elif k == "addr_sweep":
+        # variable addresses on every lui/addi carry boundary: a '.zero' pad places the variable, name[i] walks across
+        targets = [(hi << 12) | lo for hi in (0x4, 0x5, 0x7, 0x8, 0xF, 0x10, 0x7FFFF, 0x80000, 0xFFFFE) for lo in (0x000, 0x004, 0x7F4, 0x7F8, 0x7FC, 0x800, 0x804, 0xFF4, 0xFF8, 0xFFC)]
+        targets = [t for t in targets if t >= 0x4004]
+        for ti, T in enumerate(targets):
+            if ti % spec["of"] != spec["shard"]:
+                continue
+            t = rng.choice(["byte", "half", "word"])
+            vals = [rng.getrandbits(31) for _ in range(6)]
+            data = [{"name": "pad", "type": "zero", "n": (T - A.DATA_BASE) // 4}, {"name": "tv", "type": t, "vals": vals}, {"name": "after", "type": "word", "vals": [0x55AA]}]
+            stmts = []
+            for idx in (None, 0, 1, 2, 3, 5):
+                rd = rng.randrange(1, 32)
+                stmts.append({"k": "la", "rd": rd, "var": "tv", "idx": idx})
+                stmts.append({"k": "ldv", "m": rng.choice(A.LD), "rd": rng.randrange(1, 32), "var": "tv", "idx": idx})
+                stmts.append({"k": "stv", "m": rng.choice(A.ST), "rs1": rng.randrange(32), "rs2": rng.randrange(1, 32), "var": rng.choice(["tv", "after"]), "idx": idx if idx in (None, 0) else None})
+            case = {"kind": "data", "data": data, "stmts": stmts, "renders": [rng.getrandbits(30) + 1, rng.getrandbits(30) + 1]}
+            guarded(run_case, prop, case, res)
+            res.evaluations += 1
+            res.count("address_sweep_targets")
+        res.extra["address_sweep"] = "variables placed (via a .zero pad) on %d addresses around every lui/addi carry boundary, accessed by la / load / store by name with indices" % len(targets)
     elif k == "li_sweep":
         consts = li_sweep_consts()
         tier = spec["tier"]
@@ -570,14 +596,14 @@ def run_shard(spec, res):
                 if (i // 31) % spec["of"] != spec["shard"]:
                     continue
                 case = {"kind": "li", "consts": cs[i : i + 31], "render": 1 + (i // 31) % 7 + 10 * vi}
-                run_case(prop, case, res)
+                guarded(run_case, prop, case, res)
                 res.evaluations += 1
         res.extra["li_sweep"] = "every low-12-bit pattern x high parts %s x %d spelling variant(s)" % ([hex(h) for h in HIGH_PARTS], len(variants))
     elif k == "li":
         for it in range(spec["n"]):
             cs = [rng.choice([rng.getrandbits(32), -rng.getrandbits(31), rng.getrandbits(12) - 2048, (rng.getrandbits(20) << 12) | rng.choice([0x7FF, 0x800, 0xFFF, 0]), rng.getrandbits(34), -rng.getrandbits(33)]) for _ in range(31)]
             case = {"kind": "li", "consts": cs, "render": rng.getrandbits(30) + 1}
-            run_case(prop, case, res)
+            guarded(run_case, prop, case, res)
             res.evaluations += 1
             if it < 1:
                 res.sample(case, 2)
@@ -585,7 +611,7 @@ def run_shard(spec, res):
         for it in range(spec["n"]):
             case = {"kind": "rt", "instrs": [list(x) for x in rt_candidates(rng, rng.choice([1, 8, 64]))]}
             case["instrs"] = [(m, kw) for m, kw in case["instrs"]]
-            run_case(prop, case, res)
+            guarded(run_case, prop, case, res)
             res.evaluations += 1
             if it < 1:
                 res.sample(case["instrs"][:6], 2)
@@ -603,5 +629,5 @@ def run_shard(spec, res):
                     regs[posn] = r
                     batch.append(rt_one(rng, m, tuple(regs)))
             for i in range(0, len(batch), 48):
-                run_case(prop, {"kind": "rt", "instrs": batch[i : i + 48]}, res)
+                guarded(run_case, prop, {"kind": "rt", "instrs": batch[i : i + 48]}, res)
                 res.evaluations += 1
